@@ -3,7 +3,7 @@
 check of its target property, record the outcome in its meta.json (detected_by).
 usage: detect_all.py [names...]"""
 import json, os, subprocess, sys, glob
-WT="/tmp/wt-seed"; TGT="/tmp/wt-seed-target"
+WT="/tmp/wt-detect"; TGT="/tmp/wt-detect-target"
 def sh(cmd, **kw):
     return subprocess.run(cmd, shell=True, stdout=subprocess.PIPE, stderr=subprocess.STDOUT, text=True, **kw)
 if not os.path.isdir(WT):
@@ -11,7 +11,7 @@ if not os.path.isdir(WT):
 head = sh("git -C /repo rev-parse --short HEAD").stdout.strip()
 sh("git checkout --detach -f %s" % head, cwd=WT)
 names = sys.argv[1:] or sorted(os.path.basename(d) for d in glob.glob("/verif/seeded/C*"))
-env = dict(os.environ, VERIF_REPO=WT, VERIF_TARGET_DIR=TGT, VERIF_WORK="/tmp/wt-seed-work", VERIF_EVIDENCE_DIR="/tmp/wt-seed-ev")
+env = dict(os.environ, VERIF_REPO=WT, VERIF_TARGET_DIR=TGT, VERIF_WORK="/tmp/wt-detect-work", VERIF_EVIDENCE_DIR="/tmp/wt-detect-ev")
 for n in names:
     d = "/verif/seeded/" + n
     prop = n.split("-")[0]
